@@ -1,6 +1,6 @@
 (* C07 — Array primitives of the Vec backend meet their element-wise contract.
    Property theorems only: each is closed by [exact] of a lemma proved in Proofs/. *)
-From OHG Require Import Spec.Plain Proofs.PrimsThm Proofs.CCThm Proofs.C07aThm Proofs.BackendInst.
+From OHG Require Import Spec.Plain Model.UnionFind Proofs.PrimsThm Proofs.CCThm Proofs.UnionFindThm Proofs.C07aThm Proofs.BackendInst.
 
 (* the Vec back-end (and the adversarial variant) satisfy the documented contract of the four
    operations whose result is not determined by a scalar definition *)
@@ -81,6 +81,22 @@ Theorem C07_sort_by : forall B (OK : BackendOK B) (T : Type) (xs : list T) key,
   length xs = length key -> exists r, sort_by B xs key = Ok r /\ Permutation r xs.
 Proof. exact sort_by_ok. Qed.
 
+(* the faithful model of the Rust union-find (parent/rank arrays, recursive find with path compression,
+   union by rank, one find per node, to_dense) computes exactly the simple model used everywhere else;
+   the fuel n+1 given to the recursive find always suffices (termination is part of the statement) *)
+Theorem C07_union_find_refines : forall s t n,
+  length s = length t -> all_lt n s -> all_lt n t ->
+  uf_connected_components s t n = Ok (cc_pure s t n).
+Proof. exact uf_connected_components_ok. Qed.
+
+Theorem C07_union_find_rejects : forall s t n,
+  length s <> length t \/ Exists (fun x => n <= x) s \/ Exists (fun x => n <= x) t ->
+  uf_connected_components s t n = Panic.
+Proof. exact uf_connected_components_panic. Qed.
+
+Theorem C07_union_find_terminates : forall s t n, uf_connected_components s t n <> Fuel.
+Proof. exact uf_connected_components_never_fuel. Qed.
+
 (* non-vacuity: the hypotheses are met by concrete data *)
 Example C07_nonvacuous :
   length [0;1;3] = length [1;2;4] /\ all_lt 5 [0;1;3] /\ all_lt 5 [1;2;4] /\
@@ -91,3 +107,4 @@ Print Assumptions C07_vec_conforms.
 Print Assumptions C07_adv_conforms.
 Print Assumptions C07_connected_components.
 Print Assumptions C07_segmented_sum.
+Print Assumptions C07_union_find_refines.
